@@ -134,6 +134,19 @@ def rule_p4(chk: Check, ix: Index, I):
     ok = bool(nodes) and all(n.locsrc == (("PREV",), ("CUR",)) for n in nodes)
     chk.require(ok, "P4-verbatim-words", "_append_node_or_token:glue-span", f.where,
                 f"a glued word must start where the previous piece starts and end where the current one ends; got {[n.locsrc for n in nodes]}")
+    from ..absval import Tok
+    prevs = {"Constant": probe.node("Constant", "PREV"), "Starred": probe.node("Starred", "PREV"), "Tuple": probe.node("Tuple", "PREV"),
+             "Call": probe.node("Call", "PREV")}
+    curs = {"token": probe.tok("CUR", "NAME"), "Starred": probe.node("Starred", "CUR"), "Call": probe.node("Call", "CUR")}
+    for pk, pv in prevs.items():
+        for ck, cv in curs.items():
+            v = probe.call(I, "Parser._append_node_or_token", [pv, cv], {})
+            nodes = [m for m in members(v) if isinstance(m, Node)]
+            chk.count("P4-verbatim-words")
+            bad = [(n.cls, n.locsrc) for n in nodes if n.locsrc != (("PREV",), ("CUR",))]
+            chk.require(bool(nodes) and not bad, "P4-verbatim-words", f"_append_node_or_token:span({pk}+{ck})", f.where,
+                        f"gluing a {ck} onto a {pk} must give a node that starts where the previous piece starts and ends where the new "
+                        f"piece ends (the next adjacency test uses that end); got {bad or 'no node'}")
     binops = [n for n in ast.walk(f.node) if isinstance(n, ast.Call) and norm_stmt(n.func) == "ast.BinOp"]
     chk.count("P4-verbatim-words")
     ok = len(binops) == 1 and {k.arg: norm_stmt(k.value) for k in binops[0].keywords}.get("left") == "tree"
